@@ -131,6 +131,9 @@ func readvExec(t *testing.T, w *traceWriter, algo string, ops []readvOp) (events
 			rib := []map[string]any{}
 			for _, e := range table.Rib.GetAllEntries() {
 				for _, r := range e.GetRoutes() {
+					if r.Origin == table.RouteOriginStatic && len(e.Name) >= 2 && e.Name[1].String() == "nfd" {
+						continue // management's own prefixes (/localhost/nfd, /localhop/nfd) are routes of the daemon, not of this stage's clients
+					}
 					rib = append(rib, map[string]any{"name": e.Name.String(), "face": r.FaceID, "origin": r.Origin})
 				}
 			}
